@@ -718,6 +718,9 @@ class Interp:
             if isinstance(base, Ref) and self._is_pkg_class(base.ref):
                 if n.attr == '__name__':
                     return base.ref.rpartition(':')[2].rpartition('.')[2]
+                members_ = self._enum_members(base.ref)
+                if members_ is not None and n.attr in members_:
+                    return members_[n.attr]
                 for cm_, cnode_ in self.a.res.mro(base.ref):
                     key_ = (self.a.res.class_ref(cm_, cnode_), n.attr)
                     if key_ in self.world.classattrs:
@@ -1697,6 +1700,34 @@ class Interp:
             res = list(res)
         return True, res
 
+    def _enum_members(self, cref):
+        """{name: member} of a package class that derives from enum.Enum (one member object per world, so `is` works);
+        None for other classes. enum.auto() counts from 1 in definition order."""
+        table = self.world.__dict__.setdefault('enum_members', {})
+        if cref in table:
+            return table[cref]
+        table[cref] = None
+        if not any(b in ('ext:enum.Enum', 'ext:enum.IntEnum', 'ext:enum.Flag', 'ext:enum.IntFlag', 'ext:enum.StrEnum') for b in self.a.res.base_refs(cref)):
+            return None
+        members, counter = {}, 0
+        m_, cnode = self.a.res.lookup(cref)
+        for st in cnode.body:
+            if not (isinstance(st, ast.Assign) and len(st.targets) == 1 and isinstance(st.targets[0], ast.Name)):
+                continue
+            name = st.targets[0].id
+            if name.startswith('_'):
+                continue
+            if isinstance(st.value, ast.Call) and self.a.res.resolve(st.value.func, m_) == 'ext:enum.auto':
+                counter += 1
+                val = counter
+            else:
+                val = Interp(self.a, m_, dict(members), world=self.world, call_models=self.call_models, inline_pkg=True, depth=self.depth + 1).ev(st.value)
+                if isinstance(val, int) and not isinstance(val, bool):
+                    counter = val
+            members[name] = Rec(cls=cref, name=name, value=val, _name_=name, _value_=val)
+        table[cref] = members
+        return members
+
     def _class_body_env(self, cref, expr, depth=0):
         """Names of the class body that a class-level expression mentions: functions of the body are plain functions there
         (`TABLE = {'x': _handler}`), other attributes their values."""
@@ -1962,10 +1993,11 @@ class Interp:
             raise ExcRaised(Ref('builtin:TypeError'))
 
     def _compare(self, op, left, right, node):
-        if isinstance(op, ast.Is):
-            return left is right or (isinstance(left, Ref) and isinstance(right, Ref) and left == right)
-        if isinstance(op, ast.IsNot):
-            return not (left is right or (isinstance(left, Ref) and isinstance(right, Ref) and left == right))
+        if isinstance(op, (ast.Is, ast.IsNot)):
+            same_ = left is right or (isinstance(left, Ref) and isinstance(right, Ref) and left == right)
+            if same_ and left is not right and '(' in left.ref:
+                raise Unmodelled(f'identity of two results of library calls ({left.ref})')     # equal descriptions, unknown identity
+            return same_ if isinstance(op, ast.Is) else not same_
         if isinstance(op, ast.In):
             return self._contains(right, left)
         if isinstance(op, ast.NotIn):
@@ -2788,6 +2820,29 @@ class _LruFactory(PyModel):
         return self.make(f)
 
 
+class _RecKey:
+    """An abstract instance used as (part of) a dictionary key: __hash__ and __eq__ of its class, interpreted."""
+
+    def __init__(self, interp, rec):
+        self.interp, self.rec = interp, rec
+        found, h = interp._dunder(rec, '__hash__')
+        if not found:
+            cref = rec.f.get('cls')
+            if interp._find_method(cref, '__eq__')[1] is not None or interp._class_callable(cref, '__eq__') is not None:
+                raise ExcRaised(Ref('builtin:TypeError'))       # __eq__ without __hash__: unhashable
+            h = id(rec)
+        if not isinstance(h, int):
+            raise Unmodelled('__hash__ of an abstract instance is not a known integer')
+        self.h = h
+
+    def __hash__(self):
+        return self.h
+
+    def __eq__(self, other):
+        o = other.rec if isinstance(other, _RecKey) else other
+        return o is self.rec or bool(self.interp.truth(self.interp._compare(ast.Eq(), self.rec, o, None)))
+
+
 class LruCache(PyModel):
     """functools.lru_cache / functools.cache around a function of the package: results remembered per argument tuple, keyed the way
     Python keys them (hash and equality of the arguments - True and 1 and 1.0 are one key unless typed=True); entries beyond
@@ -2802,8 +2857,9 @@ class LruCache(PyModel):
     def _key_part(self, interp, v):
         if isinstance(v, Rec):
             cref = v.f.get('cls')
-            if isinstance(cref, str) and (interp._find_method(cref, '__eq__')[1] is not None or interp._find_method(cref, '__hash__')[1] is not None):
-                raise Unmodelled('memoised call keyed by an abstract instance with its own equality')
+            if isinstance(cref, str) and (interp._find_method(cref, '__eq__')[1] is not None or interp._find_method(cref, '__hash__')[1] is not None
+                                          or interp._class_callable(cref, '__eq__') is not None):
+                return _RecKey(interp, v)       # hashed and compared the way its class says
             return ('id', id(v))
         if isinstance(v, (list, dict, set)):
             raise ExcRaised(Ref('builtin:TypeError'))       # unhashable
